@@ -3288,7 +3288,7 @@ func genWide(rt *rapid.T, f *family, n int, live map[string]bool) *graph {
 			setVal(lf, val{Str: true, S: "x"})
 		}
 		for _, fn := range m.alt {
-			if i%9 != 0 { // a referenced non-key column: shared by pairs of rows, "" now and then
+			if i%9 != 0 || m.altNonEmpty { // a referenced non-key column: shared by pairs of rows, "" now and then
 				setVal(field(r, fn), val{Str: true, S: fmt.Sprintf("n%d", i/2)})
 			}
 		}
